@@ -439,7 +439,7 @@ def check_c05(rec):
             if cs["max"] != cmax:
                 v.append(("C05/concurrency-scaling", "station %s max %s != CONCURRENCY*rating %s: %s" % (cs_id, cs["max"], cmax, desc)))
             if abs(load) > cmax + eps:
-                v.append(("C05/station-limit", "step %d station %s power %s > max %s: %s" % (i, cs_id, float(load), float(cmax), desc)))
+                v.append(("C05/station-limit/" + rec["strategy"], "step %d station %s power %s > max %s: %s" % (i, cs_id, float(load), float(cmax), desc)))
             if cs_id not in occupied and load != 0:
                 v.append(("C05/power-without-vehicle", "step %d station %s carries %s without a vehicle: %s" % (i, cs_id, float(load), desc)))
             if cs_id in occupied:
